@@ -160,7 +160,16 @@ func workloadDocs(w *Workload) []Doc {
 		docs := []Doc{}
 		for i := 0; i < n; i++ {
 			pn := fmt.Sprintf("%s-x%d", w.Name, i)
-			docs = append(docs, Doc{Kind: "Pod", Ns: w.Ns, Name: pn, YAML: podYAML(w, pn, owner)})
+			pw := w
+			if w.PerPodLabel != "" {
+				cp := *w
+				cp.Labels = map[string]string{w.PerPodLabel: pn}
+				for k, v := range w.Labels {
+					cp.Labels[k] = v
+				}
+				pw = &cp
+			}
+			docs = append(docs, Doc{Kind: "Pod", Ns: w.Ns, Name: pn, YAML: podYAML(pw, pn, owner)})
 		}
 		return docs
 	}
